@@ -5,6 +5,7 @@ import sys
 sys.path.insert(0, os.path.join(os.path.dirname(os.path.abspath(__file__)), "..", "lib"))
 import vf
 import lanes
+import prog
 
 ITYPES = [("i8", 1), ("u8", 1), ("i16", 2), ("u16", 2), ("i32", 4), ("u32", 4), ("i64", 8), ("u64", 8)]
 BIN = ["and", "or", "xor", "andnot", "op&", "op|", "op^", "op&=", "op|=", "op^="]
@@ -71,6 +72,10 @@ def body(ctx):
     events, plan = lanes.record(ctx, "int", plan, "c07")
     ctx.log("events: %d" % len(events))
     lanes.validate(ctx, "T_Int.tla", events, "c07", plan_lines=plan)
+
+    # straight-line programs over live batch variables (spec/Prog.tla): every instruction reads what earlier instructions left in the
+    # registers; the trace specification carries the register file itself and binds only the result of each step
+    prog.run(ctx, "c07", prog.ITYPES, ctx.q(24, 400), ctx.q(16, 40))
     return dict(exhaustive=False,
                 rule="all 256 8-bit values (thorough: all 65536 16-bit values) and Lattice(T)+walking-bit+random values of the wider types, "
                      "x every scalar count 0..bits-1, plus independent per-lane counts, on all 22 architectures + scalar overloads; every lane judged by "
